@@ -89,16 +89,16 @@ Proof.
 Qed.
 Lemma premark_good : forall st a st1, premark st a = Some st1 -> good st st1.
 Proof.
-  unfold premark. intros st a st1. destruct a as [| |id xs]; try (intros E; inversion E; apply good_refl).
-  destruct xs as [|[|g|] r]; try (intros E; inversion E; apply good_refl).
+  unfold premark. intros st a st1. destruct a as [| |id xs|]; try (intros E; inversion E; apply good_refl).
+  destruct xs as [|[|g| |] r]; try (intros E; inversion E; apply good_refl).
   destruct (mark_of st id g); [intros E; inversion E; apply good_refl|].
   destruct (resolve st g) eqn:R; [|discriminate]. intros E; inversion E.
   eapply good_set_mark; eauto. repeat split.
 Qed.
 Lemma deferred_resolve : forall st a id c, deferred st a = Some (id, c) -> exists g, resolve st g = Some c.
 Proof.
-  unfold deferred. intros st a id c. destruct a as [| |i xs]; try discriminate.
-  destruct xs as [|[|g|] r]; try discriminate.
+  unfold deferred. intros st a id c. destruct a as [| |i xs|]; try discriminate.
+  destruct xs as [|[|g| |] r]; try discriminate.
   destruct (mark_of st i g); [discriminate|]. destruct (resolve st g) eqn:R; [|discriminate].
   intros E; inversion E; subst. eauto.
 Qed.
@@ -145,16 +145,16 @@ Proof.
   assert (K : forall c a b,
     match ev st en c with
     | (Val v, st1) =>
-        match (if truthy v then Some a else b) with
+        match (if truthy (norm v) then Some a else b) with
         | None => (Val VNil, apply_def st1 (deferred st c))
         | Some x => match ev st1 en x with
-                    | (Val w, st2) => (Val w, apply_def (apply_def st2 (deferred st c)) (deferred st1 x))
+                    | (Val w, st2) => (Val (norm w), apply_def (apply_def st2 (deferred st c)) (deferred st1 x))
                     | r => r end
         end
     | r => r end = (r, st') -> good st st').
   { intros c a b. destruct (ev st en c) as [r1 st1] eqn:E1. pose proof (G _ _ _ _ _ E1) as G1.
     destruct r1; try (intros E; inversion E; subst; auto; fail).
-    destruct (if truthy v then Some a else b) as [x|].
+    destruct (if truthy (norm v) then Some a else b) as [x|].
     - destruct (ev st1 en x) as [r2 st2] eqn:E2. pose proof (G _ _ _ _ _ E2) as G2.
       assert (G12 : good st st2) by (eapply good_trans; eauto).
       destruct r2; try (intros E; inversion E; subst; auto; fail).
@@ -202,8 +202,8 @@ Lemma evalM_good : forall n, goodP (evalM n).
 Proof.
   induction n as [|n IH]; intros st en e r st' E; simpl in E.
   - inversion E. apply good_refl.
-  - destruct e as [z|x|id xs]; try (inversion E; apply good_refl).
-    destruct xs as [|[|f|] args]; try (inversion E; apply good_refl).
+  - destruct e as [z|x|id xs|gx]; try (inversion E; apply good_refl).
+    destruct xs as [|[|f| |] args]; try (inversion E; apply good_refl).
     destruct (wrapper st id f) as [[b|g a]|]; [| |inversion E; apply good_refl].
     + destruct b;
         try (destruct (eval_args (evalM n) st en args) as [ar st1] eqn:EA;
@@ -237,16 +237,16 @@ Lemma sim1_same : forall r st, sim1 r (out st) r st.
 Proof. intros. split; auto. Qed.
 Lemma premark_out : forall st a st1, premark st a = Some st1 -> out st1 = out st.
 Proof.
-  unfold premark. intros st a st1. destruct a as [| |id xs]; try (intros E; inversion E; auto; fail).
-  destruct xs as [|[|g|] r]; try (intros E; inversion E; auto; fail).
+  unfold premark. intros st a st1. destruct a as [| |id xs|]; try (intros E; inversion E; auto; fail).
+  destruct xs as [|[|g| |] r]; try (intros E; inversion E; auto; fail).
   destruct (mark_of st id g); [intros E; inversion E; auto|].
   destruct (resolve st g); [|discriminate]. intros E; inversion E. reflexivity.
 Qed.
 Lemma premark_none : forall st a, premark st a = None ->
   exists id g r, a = SList id (SSym g :: r) /\ builtin_of g = None /\ slookup g (funcs st) = None.
 Proof.
-  unfold premark. intros st a. destruct a as [| |id xs]; try discriminate.
-  destruct xs as [|[|g|] r]; try discriminate.
+  unfold premark. intros st a. destruct a as [| |id xs|]; try discriminate.
+  destruct xs as [|[|g| |] r]; try discriminate.
   destruct (mark_of st id g); [discriminate|]. unfold resolve.
   destruct (builtin_of g) eqn:B; [discriminate|]. destruct (slookup g (funcs st)) eqn:F; [discriminate|].
   intros _. exists id, g, r. auto.
@@ -315,17 +315,17 @@ Proof.
   intros n ft IH args st en rS oS I R. unfold eval_ifS, eval_if.
   assert (K : forall c a b,
     match evalS n ft en (out st) c with
-    | (Val v, o1) => match (if truthy v then Some a else b) with
+    | (Val v, o1) => match (if truthy (norm v) then Some a else b) with
                      | None => (Val VNil, o1)
-                     | Some x => evalS n ft en o1 x end
+                     | Some x => match evalS n ft en o1 x with (Val w, o2) => (Val (norm w), o2) | r => r end end
     | r => r end = (rS, oS) ->
     exists rM st',
     match evalM n st en c with
     | (Val v, st1) =>
-        match (if truthy v then Some a else b) with
+        match (if truthy (norm v) then Some a else b) with
         | None => (Val VNil, apply_def st1 (deferred st c))
         | Some x => match evalM n st1 en x with
-                    | (Val w, st2) => (Val w, apply_def (apply_def st2 (deferred st c)) (deferred st1 x))
+                    | (Val w, st2) => (Val (norm w), apply_def (apply_def st2 (deferred st c)) (deferred st1 x))
                     | r => r end
         end
     | r => r end = (rM, st') /\ sim1 rS oS rM st').
@@ -334,15 +334,17 @@ Proof.
     pose proof (evalM_good n _ _ _ _ _ EM) as [T1 I1].
     destruct r1 as [v| |].
     - destruct (S1 eq_refl) as [-> O1].
-      destruct (if truthy v then Some a else b) as [x|].
-      + rewrite <- O1. intros E2.
-        destruct (IH st1 en x rS oS (I1 I) (same_tabs_rel _ _ _ T1 R) E2) as (rM2 & st2 & EM2 & [Q1 Q2]).
-        rewrite EM2. destruct rM2 as [w| |].
-        * eexists _, _. split; [reflexivity|]. split.
-          -- intros C. destruct (Q1 C) as [<- O2]. rewrite !apply_def_out. auto.
-          -- intros NV. specialize (Q2 NV). discriminate.
-        * eexists _, _. split; [reflexivity|]. split; auto.
-        * eexists _, _. split; [reflexivity|]. split; auto.
+      destruct (if truthy (norm v) then Some a else b) as [x|].
+      + rewrite <- O1. destruct (evalS n ft en (out st1) x) as [r2 o2] eqn:E2.
+        destruct (IH st1 en x r2 o2 (I1 I) (same_tabs_rel _ _ _ T1 R) E2) as (rM2 & st2 & EM2 & [Q1 Q2]).
+        rewrite EM2. destruct r2 as [w2| |].
+        * destruct (Q1 eq_refl) as [-> O2]. intros E; inversion E; subst.
+          eexists _, _. split; [reflexivity|]. split; [|discriminate].
+          intros _. rewrite !apply_def_out. auto.
+        * intros E; inversion E; subst. pose proof (Q2 eq_refl). destruct rM2; [discriminate| |];
+            (eexists _, _; split; [reflexivity|]; split; auto).
+        * intros E; inversion E; subst. pose proof (Q2 eq_refl). destruct rM2; [discriminate| |];
+            (eexists _, _; split; [reflexivity|]; split; auto).
       + intros E; inversion E; subst. eexists _, _. split; [reflexivity|].
         split; auto. intros _. rewrite apply_def_out. auto.
     - intros E; inversion E; subst. pose proof (S2 eq_refl). destruct rM; [discriminate| |];
@@ -356,7 +358,7 @@ Proof.
 Qed.
 
 Lemma eval_seq_sim : forall n ft, simP n ft -> forall forms st en v rS oS, Inv st -> Rel st ft ->
-  eval_bodyS (evalS n ft) en (out st) forms v = (rS, oS) ->
+  eval_seqS (evalS n ft) en (out st) forms v = (rS, oS) ->
   exists rM st', eval_seq (evalM n) st en forms v = (rM, st') /\ sim1 rS oS rM st'.
 Proof.
   intros n ft IH. induction forms as [|f rest IHf]; simpl; intros st en v rS oS I R E.
@@ -369,7 +371,7 @@ Proof.
       pose proof (evalM_good n _ _ _ _ _ EM) as [T1 I1].
       destruct r1 as [w| |].
       * destruct (S1 eq_refl) as [-> O1]. rewrite <- O1 in E.
-        apply (IHf st1 en w rS oS (I1 (I0 I)) (same_tabs_rel _ _ _ T1 (same_tabs_rel _ _ _ T0 R)) E).
+        apply (IHf st1 en (norm w) rS oS (I1 (I0 I)) (same_tabs_rel _ _ _ T1 (same_tabs_rel _ _ _ T0 R)) E).
       * inversion E; subst. pose proof (S2 eq_refl). destruct rM; [discriminate| |];
           (eexists _, _; split; [reflexivity|]; split; auto).
       * inversion E; subst. pose proof (S2 eq_refl). destruct rM; [discriminate| |];
@@ -451,10 +453,10 @@ Theorem evalM_sim : forall ft n, simP n ft.
 Proof.
   intros ft. induction n as [|n IH]; intros st en e rS oS I R E; simpl in E.
   - inversion E; subst. exists OutOfFuel, st. split; auto. apply sim1_same.
-  - destruct e as [z|x|id xs].
+  - destruct e as [z|x|id xs|gx].
     + inversion E; subst. eexists _, _. split; [reflexivity|apply sim1_same].
     + inversion E; subst. eexists _, _. split; [reflexivity|apply sim1_same].
-    + destruct xs as [|[z|f|i ys] args];
+    + destruct xs as [|[z|f|i ys|gy] args];
         try (inversion E; subst; eexists _, _; split; [reflexivity|apply sim1_same]).
       simpl. destruct (builtin_of f) as [b|] eqn:B.
       * rewrite (wrapper_builtin st id f b B).
@@ -525,16 +527,18 @@ Proof.
            destruct NV as (rM & st' & EQ & NV). exists rM, st'. split.
            ++ destruct (wrapper st id f) as [[[]|g a]|]; exact EQ.
            ++ split; [discriminate|auto].
+    + inversion E; subst. eexists _, _. split; [reflexivity|apply sim1_same].
 Qed.
 
 (* ---- compilation (CompileList / placeholders) keeps the invariant and defines nothing ------------- *)
 Fixpoint sexp_ind2 (P : sexp -> Prop) (hI : forall z, P (SInt z)) (hS : forall x, P (SSym x))
-  (hL : forall id xs, Forall P xs -> P (SList id xs)) (e : sexp) : P e :=
+  (hL : forall id xs, Forall P xs -> P (SList id xs)) (hG : forall x, P (SGlob x)) (e : sexp) : P e :=
   match e with
   | SInt z => hI z
   | SSym x => hS x
   | SList id xs => hL id xs ((fix go (l : list sexp) : Forall P l :=
-                               match l with [] => Forall_nil P | x :: r => Forall_cons x (sexp_ind2 P hI hS hL x) (go r) end) xs)
+                               match l with [] => Forall_nil P | x :: r => Forall_cons x (sexp_ind2 P hI hS hL hG x) (go r) end) xs)
+  | SGlob x => hG x
   end.
 
 Record cg (st st' : state) : Prop := mkCg {
@@ -630,8 +634,8 @@ Qed.
 
 Lemma compile_list_cgood : forall e st, cgood st (compile_list st e).
 Proof.
-  induction e as [z|x|id xs IH] using sexp_ind2; intros st; try apply cgood_refl.
-  destruct xs as [|[z|f|i ys] args]; try apply cgood_refl.
+  induction e as [z|x|id xs IH|gx] using sexp_ind2; intros st; try apply cgood_refl.
+  destruct xs as [|[z|f|i ys|gy] args]; try apply cgood_refl.
   simpl. destruct (resolve_or_place st f) as [c st1] eqn:RP.
   destruct (resolve_or_place_spec _ _ _ _ RP) as [G1 R1].
   assert (G2 : cgood st (set_mark st1 id c)).
@@ -642,7 +646,7 @@ Proof.
   inversion IHargs as [|? ? Pa Prest]; subst.
   apply IHr; auto.
   destruct (strict_at c i); auto.
-  destruct a as [| |j ys]; auto.
+  destruct a as [| |j ys|]; auto.
   destruct (marked st2 (SList j ys)); auto.
   eapply cgood_trans; [exact G2|apply Pa].
 Qed.
@@ -670,12 +674,13 @@ Qed.
 (* ---- defun ---------------------------------------------------------------------------------------- *)
 Lemma sexp_eqb_eq : forall x y, sexp_eqb x y = true -> x = y.
 Proof.
-  induction x as [z|s|id xs IH] using sexp_ind2; destruct y as [z'|s'|id' ys]; simpl; try discriminate.
+  induction x as [z|s|id xs IH|gx] using sexp_ind2; destruct y as [z'|s'|id' ys|gy]; simpl; try discriminate.
   - intros H. apply Z.eqb_eq in H. congruence.
   - intros H. apply String.eqb_eq in H. congruence.
   - intros H. apply andb_true_iff in H. destruct H as [H1 H2]. apply Nat.eqb_eq in H1. subst id'.
     f_equal. revert ys H2. induction IH as [|x xs Px _ IHxs]; destruct ys as [|y ys]; try discriminate; auto.
     intros H. apply andb_true_iff in H. destruct H as [Ha Hb]. f_equal; auto.
+  - intros H. apply String.eqb_eq in H. congruence.
 Qed.
 Lemma sexps_eqb_eq : forall xs ys, sexps_eqb xs ys = true -> xs = ys.
 Proof.
@@ -818,23 +823,33 @@ Proof.
 Qed.
 
 (* ---- histories of code objects ------------------------------------------------------------------- *)
-Definition HInv (m : mstate) (s : sstate) : Prop := Inv (ms m) /\ Rel (ms m) (sft s) /\ codes m = scodes s.
+Definition HInv (m : mstate) (s : sstate) : Prop :=
+  Inv (ms m) /\ Rel (ms m) (sft s) /\ codes m = scodes s /\ mgv m = sgv s.
 Definition osim (oS oM : obs) : Prop :=
   (comparable (fst oS) = true -> oM = oS) /\ (is_val (fst oS) = false -> is_val (fst oM) = false).
 
-Lemma run_forms_sim : forall n fs st ft v, Inv st -> Rel st ft -> guard_forms n st fs = true ->
-  exists rM st', run_forms n st fs v = (rM, st') /\
-    sim1 (fst (fst (run_formsS n ft (out st) fs v))) (snd (fst (run_formsS n ft (out st) fs v))) rM st' /\
-    Inv st' /\ Rel st' (snd (run_formsS n ft (out st) fs v)).
+Lemma globalize_guarded : forall ps body gv, g_body gv ps body = true -> globalize_body gv ps body = (body, gv).
 Proof.
-  intros n. induction fs as [|t r IH]; simpl; intros st ft v I R G.
+  intros ps. induction body as [|f r IH]; simpl; intros gv G; auto.
+  apply andb_true_iff in G. destruct G as [G1 G2].
+  destruct f as [z|x|id xs|gx]; try (rewrite (IH gv G2); reflexivity).
+  rewrite G1. rewrite (IH gv G2). reflexivity.
+Qed.
+Lemma run_forms_sim : forall n fs st ft gv v, Inv st -> Rel st ft -> guard_forms n st gv fs = true ->
+  exists rM st', run_forms n st gv fs v = (rM, st', snd (run_formsS n ft gv (out st) fs v)) /\
+    sim1 (fst (fst (fst (run_formsS n ft gv (out st) fs v)))) (snd (fst (fst (run_formsS n ft gv (out st) fs v)))) rM st' /\
+    Inv st' /\ Rel st' (snd (fst (run_formsS n ft gv (out st) fs v))).
+Proof.
+  intros n. induction fs as [|t r IH]; simpl; intros st ft gv v I R G.
   - eexists _, _. split; [reflexivity|]. split; [apply sim1_same|auto].
   - destruct t as [e|nm]; [|apply IH; auto].
     destruct (parse_defun e) as [[[nm ps] body]|] eqn:PD.
-    + apply andb_true_iff in G. destruct G as [G1 G2].
+    + apply andb_true_iff in G. destruct G as [G0 G2]. apply andb_true_iff in G0. destruct G0 as [GB G1].
+      rewrite (globalize_guarded ps body gv GB). simpl.
       destruct (defunM_step st ft nm ps body I R G1) as (I' & R' & O'). rewrite <- O'. apply IH; auto.
-    + destruct (evalS n ft [] (out st) e) as [r1 o1] eqn:E1.
-      destruct (evalM_sim ft n st [] e r1 o1 I R E1) as (rM & st1 & EM & [S1 S2]).
+    + destruct (parse_gdef e) as [[[always nm] z]|] eqn:PG; [apply IH; auto|].
+      destruct (evalS n ft gv (out st) e) as [r1 o1] eqn:E1.
+      destruct (evalM_sim ft n st gv e r1 o1 I R E1) as (rM & st1 & EM & [S1 S2]).
       rewrite EM in *. pose proof (evalM_good n _ _ _ _ _ EM) as [T1 I1].
       destruct r1 as [w| |].
       * destruct (S1 eq_refl) as [-> O1]. rewrite <- O1. apply IH; auto. eapply same_tabs_rel; eauto.
@@ -844,26 +859,34 @@ Proof.
           (eexists _, _; split; [reflexivity|]; split; [split; auto|split; [auto|eapply same_tabs_rel; eauto]]).
 Qed.
 
-Lemma compile_defs_sim : forall fs st ft, Inv st -> Rel st ft -> guard_defs st fs = true ->
-  snd (compile_defs st fs) = snd (compile_defsS ft fs) /\
-  Inv (fst (compile_defs st fs)) /\ Rel (fst (compile_defs st fs)) (fst (compile_defsS ft fs)) /\
-  out (fst (compile_defs st fs)) = out st.
+Lemma compile_defs_sim : forall fs st ft gv, Inv st -> Rel st ft -> guard_defs st gv fs = true ->
+  snd (compile_defs st gv fs) = snd (compile_defsS ft gv fs) /\
+  snd (fst (compile_defs st gv fs)) = snd (fst (compile_defsS ft gv fs)) /\
+  Inv (fst (fst (compile_defs st gv fs))) /\
+  Rel (fst (fst (compile_defs st gv fs))) (fst (fst (compile_defsS ft gv fs))) /\
+  out (fst (fst (compile_defs st gv fs))) = out st.
 Proof.
-  induction fs as [|t r IH]; simpl; intros st ft I R G; auto.
+  induction fs as [|t r IH]; simpl; intros st ft gv I R G; auto.
   destruct t as [e|nm].
   - destruct (parse_defun e) as [[[nm ps] body]|] eqn:PD.
-    + apply andb_true_iff in G. destruct G as [G1 G2].
+    + apply andb_true_iff in G. destruct G as [G0 G2]. apply andb_true_iff in G0. destruct G0 as [GB G1].
+      rewrite (globalize_guarded ps body gv GB). simpl.
       destruct (defunM_step st ft nm ps body I R G1) as (I' & R' & O').
-      specialize (IH _ _ I' R' G2).
-      destruct (compile_defs (defunM st nm ps body) r) as [st' r'].
-      destruct (compile_defsS ((nm, (ps, body)) :: ft) r) as [ft' r'']. simpl in *.
-      destruct IH as (A & B & C & D). split; [congruence|split; [auto|split; [auto|congruence]]].
-    + specialize (IH _ _ I R G). destruct (compile_defs st r) as [st' r'].
-      destruct (compile_defsS ft r) as [ft' r'']. simpl in *.
-      destruct IH as (A & B & C & D). split; [congruence|split; [auto|split; [auto|congruence]]].
-  - specialize (IH _ _ I R G). destruct (compile_defs st r) as [st' r'].
-    destruct (compile_defsS ft r) as [ft' r'']. simpl in *.
-    destruct IH as (A & B & C & D). split; [congruence|split; [auto|split; [auto|congruence]]].
+      specialize (IH _ _ gv I' R' G2).
+      destruct (compile_defs (defunM st nm ps body) gv r) as [[st' gv'] r'].
+      destruct (compile_defsS ((nm, (ps, body)) :: ft) gv r) as [[ft' gv''] r'']. simpl in *.
+      destruct IH as (A & A2 & B & C & D). split; [congruence|split; [auto|split; [auto|split; [auto|congruence]]]].
+    + destruct (parse_gdef e) as [[[always nm] z]|] eqn:PG.
+      * specialize (IH _ _ (gdef gv always nm z) I R G).
+        destruct (compile_defs st (gdef gv always nm z) r) as [[st' gv'] r'].
+        destruct (compile_defsS ft (gdef gv always nm z) r) as [[ft' gv''] r'']. simpl in *.
+        destruct IH as (A & A2 & B & C & D). split; [congruence|split; [auto|split; [auto|split; [auto|congruence]]]].
+      * specialize (IH _ _ gv I R G). destruct (compile_defs st gv r) as [[st' gv'] r'].
+        destruct (compile_defsS ft gv r) as [[ft' gv''] r'']. simpl in *.
+        destruct IH as (A & A2 & B & C & D). split; [congruence|split; [auto|split; [auto|split; [auto|congruence]]]].
+  - specialize (IH _ _ gv I R G). destruct (compile_defs st gv r) as [[st' gv'] r'].
+    destruct (compile_defsS ft gv r) as [[ft' gv''] r'']. simpl in *.
+    destruct IH as (A & A2 & B & C & D). split; [congruence|split; [auto|split; [auto|split; [auto|congruence]]]].
 Qed.
 Lemma compile_rest_cgood : forall fs st, cgood st (compile_rest st fs).
 Proof.
@@ -884,20 +907,20 @@ Lemma step_sim : forall n m s o, HInv m s -> guard_op n m o = true ->
   | _, _ => False
   end.
 Proof.
-  intros n m s o (I & R & CE) G. destruct o as [cid forms|cid|cid]; simpl in *.
-  - split; auto. unfold HInv; simpl. split; [auto|split; [auto|congruence]].
-  - rewrite <- CE. destruct (nlookup cid (codes m)) as [fs|]; [|split; [unfold HInv; auto|simpl; auto]].
-    destruct (compile_defs_sim fs (ms m) (sft s) I R G) as (A & B & C & D).
-    destruct (compile_defs (ms m) fs) as [st1 fs']. destruct (compile_defsS (sft s) fs) as [ft' fs''].
-    simpl in *. subst fs''.
+  intros n m s o (I & R & CE & GE) G. destruct o as [cid forms|cid|cid]; simpl in *.
+  - split; auto. unfold HInv; simpl. split; [auto|split; [auto|split; [congruence|auto]]].
+  - rewrite <- CE, <- GE. destruct (nlookup cid (codes m)) as [fs|]; [|split; [unfold HInv; auto|simpl; auto]].
+    destruct (compile_defs_sim fs (ms m) (sft s) (mgv m) I R G) as (A & A2 & B & C & D).
+    destruct (compile_defs (ms m) (mgv m) fs) as [[st1 gv1] fs'].
+    destruct (compile_defsS (sft s) (mgv m) fs) as [[ft' gv1'] fs'']. simpl in *. subst fs'' gv1'.
     destruct (cgood_rel _ _ _ (compile_rest_cgood fs' st1) B C) as [I' R'].
-    split; auto. unfold HInv; simpl. split; [auto|split; [auto|congruence]].
-  - rewrite <- CE. destruct (nlookup cid (codes m)) as [fs|]; [|split; [unfold HInv; auto|simpl; auto]].
+    split; auto. unfold HInv; simpl. split; [auto|split; [auto|split; [congruence|auto]]].
+  - rewrite <- CE, <- GE. destruct (nlookup cid (codes m)) as [fs|]; [|split; [unfold HInv; auto|simpl; auto]].
     pose proof (good_set_out (ms m) []) as [T0 I0].
-    destruct (run_forms_sim n fs (set_out (ms m) []) (sft s) VNil (I0 I) (same_tabs_rel _ _ _ T0 R) G)
+    destruct (run_forms_sim n fs (set_out (ms m) []) (sft s) (mgv m) VNil (I0 I) (same_tabs_rel _ _ _ T0 R) G)
       as (rM & st' & EM & S1 & I' & R').
-    simpl in S1, R'. rewrite EM.
-    destruct (run_formsS n (sft s) [] fs VNil) as [[rS oS] ft']. simpl in *.
+    simpl in EM, S1, R'. rewrite EM.
+    destruct (run_formsS n (sft s) (mgv m) [] fs VNil) as [[[rS oS] ft'] gv']. simpl in *.
     split; [unfold HInv; simpl; auto|].
     destruct S1 as [S1 S2]. split; simpl; auto.
     intros Cc. destruct (S1 Cc) as [-> ->]. reflexivity.
@@ -914,7 +937,7 @@ Proof.
   destruct obS as [a|], obM as [b|]; try contradiction; simpl; auto.
 Qed.
 Lemma HInv_init : HInv minit sinit.
-Proof. split; [apply Inv_init|]. split; [intros f; reflexivity|reflexivity]. Qed.
+Proof. split; [apply Inv_init|]. split; [intros f; reflexivity|split; reflexivity]. Qed.
 Theorem history_refines : forall n ops, guard_ops n minit ops = true ->
   Forall2 osim (runS n sinit ops) (runM n minit ops).
 Proof. intros. apply history_refines_from; auto. apply HInv_init. Qed.
@@ -1005,24 +1028,30 @@ Proof.
   intros ev ev' H. induction forms as [|a r IH]; simpl; intros; auto.
   rewrite H. destruct (ev' en o a) as [[w| |] o1]; auto.
 Qed.
+Lemma eval_seqS_ext : forall ev ev', (forall en o e, ev en o e = ev' en o e) ->
+  forall forms en o v, eval_seqS ev en o forms v = eval_seqS ev' en o forms v.
+Proof.
+  intros ev ev' H. induction forms as [|a r IH]; simpl; intros; auto.
+  rewrite H. destruct (ev' en o a) as [[w| |] o1]; auto.
+Qed.
 Lemma eval_ifS_ext : forall ev ev', (forall en o e, ev en o e = ev' en o e) ->
   forall args en o, eval_ifS ev en o args = eval_ifS ev' en o args.
 Proof.
   intros ev ev' H args en o. unfold eval_ifS.
   destruct args as [|c [|a [|b [|? ?]]]]; auto; rewrite H; destruct (ev' en o c) as [[v| |] o1]; auto;
-    destruct (truthy v); auto.
+    destruct (truthy (norm v)); auto; rewrite H; reflexivity.
 Qed.
 Theorem evalS_ext : forall ft ft', (forall f, slookup f ft = slookup f ft') ->
   forall n en o e, evalS n ft en o e = evalS n ft' en o e.
 Proof.
   intros ft ft' H. induction n as [|n IH]; intros en o e; simpl; auto.
-  destruct e as [z|x|id xs]; auto. destruct xs as [|[z|f|i ys] args]; auto.
+  destruct e as [z|x|id xs|gx]; auto. destruct xs as [|[z|f|i ys|gy] args]; auto.
   destruct (builtin_of f) as [b|].
   - destruct b; try (rewrite (eval_argsS_ext _ _ IH); reflexivity).
     + apply eval_ifS_ext; auto.
     + unfold eval_caseS. destruct args as [|k clauses]; auto.
       rewrite (eval_argsS_ext _ _ IH). destruct (eval_argsS (evalS n ft') en o [k]) as [[[|key [|? ?]]|r] o1]; auto.
-      destruct (select_clause key clauses); auto. apply eval_bodyS_ext; auto.
+      destruct (select_clause key clauses); auto. apply eval_seqS_ext; auto.
   - rewrite H. destruct (slookup f ft') as [[ps forms]|]; auto.
     rewrite (eval_argsS_ext _ _ IH). destruct (eval_argsS (evalS n ft') en o args) as [[vs|r] o1]; auto.
     destruct (Nat.ltb _ _); auto. apply eval_bodyS_ext; auto.
@@ -1209,6 +1238,28 @@ Theorem undefined_call_equal_refuted :
 Proof.
   intros H. specialize (H 50 (undef_ops (SList 2 [SSym "emit"; SInt 5]))).
   destruct undefined_args_first_witness as (G & S1 & M1 & _). rewrite S1, M1 in H. specialize (H G). discriminate.
+Qed.
+
+(* (defun f (x) v) (defun g (v) (f 0)) (defvar v 1) (g 5), the code object evaluated twice: when f is
+   defined the package has no variable v, so the body form becomes a reference to a newly created package
+   variable: f answers the package variable (1) although its caller binds v (5); the second evaluation of
+   the same defun finds the variable and leaves the symbol: 5 *)
+Definition bare_ops : list op :=
+  [OLoad 0 [dfn 1 "f" 2 ["x"] [SSym "v"];
+            dfn 3 "g" 4 ["v"] [SList 5 [SSym "f"; SInt 0]];
+            SList 6 [SSym "defvar"; SSym "v"; SInt 1];
+            SList 7 [SSym "g"; SInt 5]];
+   ORun 0; ORun 0].
+Lemma bare_symbol_witness :
+  guard_ops 50 minit bare_ops = false /\
+  runS 50 sinit bare_ops = [(Val (VInt 5), []); (Val (VInt 5), [])] /\
+  runM 50 minit bare_ops = [(Val (VInt 1), []); (Val (VInt 5), [])].
+Proof. vm_compute. auto. Qed.
+Theorem bare_body_symbol_refuted :
+  exists ops a b, runS 50 sinit ops = [a; a] /\ runM 50 minit ops = [b; a] /\ comparable (fst a) = true /\ a <> b.
+Proof.
+  exists bare_ops, (Val (VInt 5), []), (Val (VInt 1), []).
+  destruct bare_symbol_witness as (_ & S1 & M1). repeat split; auto. discriminate.
 Qed.
 
 (* non-vacuity: a guarded history with a forward reference (caller before callee), compilation, repeated
